@@ -75,24 +75,14 @@ Lemma sep_nl : (sep =? nl) = false. Proof. reflexivity. Qed.
 Lemma is_wrap m i t : is (Wrap m i) t = is i t.
 Proof. destruct t; reflexivity. Qed.
 
-(* a chain has one root: a context error has no kind *)
-Lemma canceled_no_kind e : is e TCanceled = true -> (forall k, is e (TK k) = false) /\ is e TDeadline = false.
-Proof.
-  induction e; simpl; try discriminate; auto.
-Qed.
-
-Lemma deadline_no_kind e : is e TDeadline = true -> (forall k, is e (TK k) = false) /\ is e TCanceled = false.
-Proof.
-  induction e; simpl; try discriminate; auto.
-Qed.
-
+(* a context error, raw, wrapped, or inside a composite that may also be of a library kind: converted to its kind *)
 Lemma ctx_kind_cases e k : ctx_kind_of e = Some k ->
-  (k = ErrCancelled \/ k = ErrTimeout) /\ convert_ctx e = Sent k /\ forall k', is e (TK k') = false.
+  (k = ErrCancelled \/ k = ErrTimeout) /\ convert_ctx e = Sent k.
 Proof.
   unfold ctx_kind_of, convert_ctx. destruct (is e TCanceled) eqn:C.
-  - intro H; inversion H; subst. repeat split; auto. apply canceled_no_kind; auto.
+  - intro H; inversion H; subst. split; auto.
   - destruct (is e TDeadline) eqn:D; [|discriminate].
-    intro H; inversion H; subst. repeat split; auto. apply deadline_no_kind; auto.
+    intro H; inversion H; subst. split; auto.
 Qed.
 
 (* ================= the shape of what the library builds ================= *)
@@ -136,7 +126,7 @@ Proof. intro L. rewrite errorf_some_eq, (lib_convert _ _ L). constructor. exact 
 
 Lemma errorf_ctx e k m : ctx_kind_of e = Some k -> lib k (errorf (Some e) m).
 Proof.
-  intro H. destruct (ctx_kind_cases _ _ H) as (_ & E & _). rewrite errorf_some_eq, E. constructor. constructor.
+  intro H. destruct (ctx_kind_cases _ _ H) as (_ & E). rewrite errorf_some_eq, E. constructor. constructor.
 Qed.
 
 Lemma errorf_nil m : lib ErrUnknown (errorf None m).
@@ -163,7 +153,7 @@ Definition cause_sem (o : option err) (ko : option nat) : Prop :=
 
 Lemma ctx_kind_lt e k : ctx_kind_of e = Some k -> (k < nkinds)%nat /\ is_ctx_kind k = true.
 Proof.
-  intro H. destruct (ctx_kind_cases _ _ H) as ([->| ->] & _ & _); pose proof special_kinds; tauto.
+  intro H. destruct (ctx_kind_cases _ _ H) as ([->| ->] & _); pose proof special_kinds; tauto.
 Qed.
 
 Lemma errorf_arg t k m : arg_sem t k -> lib k (errorf t m).
@@ -192,7 +182,7 @@ Proof.
   intros At Co. unfold wrap_error, new.
   destruct o as [c|], ko as [k|]; simpl in Co; try contradiction; cbn [option_map wrap_kind].
   - destruct Co as (Hk & [H|H]).
-    + destruct (ctx_kind_cases _ _ H) as (_ & E & _). destruct (ctx_kind_lt _ _ H) as (_ & Ck).
+    + destruct (ctx_kind_cases _ _ H) as (_ & E). destruct (ctx_kind_lt _ _ H) as (_ & Ck).
       rewrite E, any_sent_ctx, Ck. apply errorf_lib. constructor.
     + rewrite (lib_convert _ _ H), (any_lib_ctx _ _ H).
       destruct (is_ctx_kind k); [apply errorf_lib; auto | apply errorf_arg'; auto].
@@ -206,7 +196,7 @@ Lemma any_convert_arg t k : arg_sem t k -> any (option_map convert_ctx t) ctx_ki
 Proof.
   intros (_ & [[-> ->] | (e & -> & [H|H])]); simpl option_map.
   - destruct special_kinds as (_ & _ & _ & U & _). rewrite U. reflexivity.
-  - destruct (ctx_kind_cases _ _ H) as (_ & E & _). rewrite E. apply any_sent_ctx.
+  - destruct (ctx_kind_cases _ _ H) as (_ & E). rewrite E. apply any_sent_ctx.
   - rewrite (lib_convert _ _ H). apply any_lib_ctx; auto.
 Qed.
 
@@ -235,7 +225,8 @@ Proof.
   destruct (is_ctx_kind kt) eqn:Ck; [apply wrap_error_lib; auto|].
   destruct o as [c|], ko as [k|]; simpl in Co; try contradiction.
   - destruct Co as (Hk & [H|H]).
-    + destruct (ctx_kind_cases _ _ H) as (_ & _ & N). rewrite (is_common_nokind _ N).
+    + (* a context cause, possibly a composite that is also a common error: New(cause) converts it as well *)
+      destruct (is_common (Some c)); [apply errorf_ctx; auto|].
       destruct (ctx_kind_lt _ _ H) as (_ & Ck').
       replace k with (wrap_kind kt (Some k)) at 1 by (simpl; rewrite Ck'; reflexivity).
       apply wrap_error_lib; simpl; auto.
@@ -312,7 +303,7 @@ Proof.
   intro H.
   assert (W : forall t, lib k (wrap_error t (Some c) m)).
   { intro t0. unfold wrap_error. simpl option_map. destruct H as [H|[G Ck]].
-    - destruct (ctx_kind_cases _ _ H) as (_ & E & _). destruct (ctx_kind_lt _ _ H) as (_ & Ck).
+    - destruct (ctx_kind_cases _ _ H) as (_ & E). destruct (ctx_kind_lt _ _ H) as (_ & Ck).
       rewrite E, any_sent_ctx, Ck. apply errorf_lib. constructor.
     - destruct (given_lib _ _ G) as (_ & L). rewrite (lib_convert _ _ L), (any_lib_ctx _ _ L), Ck.
       apply errorf_lib; auto. }
@@ -322,7 +313,7 @@ Proof.
   - apply lib_exactly. unfold wrap_if_not_common.
     destruct (any (option_map convert_ctx t) ctx_kinds); auto.
     destruct H as [H|[G _]].
-    + destruct (ctx_kind_cases _ _ H) as (_ & _ & Nk). rewrite (is_common_nokind _ Nk). auto.
+    + destruct (is_common (Some c)); auto.
     + destruct (given_lib _ _ G) as (Hk & L). rewrite (is_common_lib _ _ Hk L). exact N.
 Qed.
 
@@ -939,8 +930,11 @@ Proof.
   destruct (is e TDeadline) eqn:D; [reflexivity|]. rewrite C, D. reflexivity.
 Qed.
 
-Lemma foreign_no_kind e i : is e (TF i) = true -> forall k, is e (TK k) = false.
+Lemma foreign_no_kind e i : chain e = true -> is e (TF i) = true -> forall k, is e (TK k) = false.
 Proof. induction e; simpl; try discriminate; auto. Qed.
+
+Lemma chain_convert e : chain e = true -> chain (convert_ctx e) = true.
+Proof. unfold convert_ctx. destruct (is e TCanceled); auto. destruct (is e TDeadline); auto. Qed.
 
 Lemma wrap_sent_lib k c m : any (Some (convert_ctx c)) ctx_kinds = false ->
   lib k (wrap_error (Some (Sent k)) (Some c) m).
@@ -950,7 +944,7 @@ Lemma ctx_cause_convert c k : ctx_cause c k ->
   exactly (convert_ctx c) k /\ any (Some (convert_ctx c)) ctx_kinds = true /\ (k < nkinds)%nat.
 Proof.
   intros [H|[G Ck]].
-  - destruct (ctx_kind_cases _ _ H) as (_ & E & _). destruct (ctx_kind_lt _ _ H) as (Hk & Ck).
+  - destruct (ctx_kind_cases _ _ H) as (_ & E). destruct (ctx_kind_lt _ _ H) as (Hk & Ck).
     rewrite E, any_sent_ctx. split; [apply lib_exactly; constructor | auto].
   - destruct (given_lib _ _ G) as (Hk & L). rewrite (lib_convert _ _ L), (any_lib_ctx _ _ L).
     split; [apply lib_exactly; auto | auto].
@@ -981,10 +975,10 @@ Proof. vm_compute. repeat split; lia. Qed.
 
 Definition io_targets : list target := [TF io_EOF; TF io_ErrUnexpectedEOF].
 
-Lemma any_foreign_no_kind n ts : (forall t, In t ts -> exists i, t = TF i) -> any (Some n) ts = true ->
+Lemma any_foreign_no_kind n ts : chain n = true -> (forall t, In t ts -> exists i, t = TF i) -> any (Some n) ts = true ->
   forall k, is n (TK k) = false.
 Proof.
-  intros F H. simpl in H. apply existsb_exists in H. destruct H as (t & I & H).
+  intros Ch F H. simpl in H. apply existsb_exists in H. destruct H as (t & I & H).
   destruct (F t I) as (i & ->). eapply foreign_no_kind; eauto.
 Qed.
 
@@ -993,15 +987,15 @@ Proof. intros t [<-|[<-|[]]]; eauto. Qed.
 
 (* ConvertIOError: its result is a fixed point (converting again changes nothing); a context error becomes exactly
    cancelled / timeout; io.EOF / io.ErrUnexpectedEOF (bare or wrapped) become exactly ErrEOF *)
-Lemma convert_io_l e :
+Lemma convert_io_l e : chain e = true ->
   convert_io (convert_io e) = convert_io e /\
   (forall k, ctx_kind_of e = Some k -> convert_io e = Sent k) /\
   (ctx_kind_of e = None -> any (Some e) io_targets = true -> exactly (convert_io e) ErrEOF).
 Proof.
-  destruct eof_not_ctx as (E1 & E2 & E3 & E4).
-  assert (EOFCASE : forall n, convert_ctx n = n -> any (Some n) [TK ErrEOF] = false -> any (Some n) io_targets = true ->
+  intro Ch. destruct eof_not_ctx as (E1 & E2 & E3 & E4).
+  assert (EOFCASE : forall n, chain n = true -> convert_ctx n = n -> any (Some n) [TK ErrEOF] = false -> any (Some n) io_targets = true ->
                     lib ErrEOF (wrap_error (Some (Sent ErrEOF)) (Some n) [])).
-  { intros n Cn A B. apply wrap_sent_lib. rewrite Cn. pose proof (any_foreign_no_kind n _ io_targets_foreign B) as N.
+  { intros n Chn Cn A B. apply wrap_sent_lib. rewrite Cn. pose proof (any_foreign_no_kind n _ Chn io_targets_foreign B) as N.
     simpl. rewrite !N. reflexivity. }
   split; [|split].
   - assert (R : convert_io e = if any (Some (convert_ctx e)) [TK ErrEOF] then convert_ctx e
@@ -1012,18 +1006,18 @@ Proof.
     destruct (any (Some (convert_ctx e)) [TK ErrEOF]) eqn:A.
     + unfold convert_io. rewrite convert_ctx_idem, A. reflexivity.
     + destruct (any (Some (convert_ctx e)) io_targets) eqn:B.
-      * pose proof (EOFCASE _ (convert_ctx_idem e) A B) as L. unfold convert_io. rewrite (lib_convert _ _ L).
+      * pose proof (EOFCASE _ (chain_convert e Ch) (convert_ctx_idem e) A B) as L. unfold convert_io. rewrite (lib_convert _ _ L).
         destruct (lib_exactly _ _ L) as (X & _).
         assert (any (Some (wrap_error (Some (Sent ErrEOF)) (Some (convert_ctx e)) [])) [TK ErrEOF] = true) as ->
           by (cbn [any existsb]; rewrite X, Nat.eqb_refl; reflexivity).
         reflexivity.
       * unfold convert_io. fold io_targets. rewrite convert_ctx_idem, A, B. reflexivity.
-  - intros k H. destruct (ctx_kind_cases _ _ H) as (Hk & C & _). unfold convert_io. rewrite C. simpl.
+  - intros k H. destruct (ctx_kind_cases _ _ H) as (Hk & C). unfold convert_io. rewrite C. simpl.
     rewrite !orb_false_r. destruct Hk as [-> | ->]; rewrite ?E3, ?E4; reflexivity.
   - intros H B. assert (C : convert_ctx e = e).
     { unfold ctx_kind_of in H. unfold convert_ctx. destruct (is e TCanceled); [discriminate|].
       destruct (is e TDeadline); [discriminate | reflexivity]. }
-    pose proof (any_foreign_no_kind e _ io_targets_foreign B) as N.
+    pose proof (any_foreign_no_kind e _ Ch io_targets_foreign B) as N.
     unfold convert_io. fold io_targets. rewrite C.
     assert (A : any (Some e) [TK ErrEOF] = false) by (simpl; rewrite N; reflexivity).
     rewrite A, B. apply lib_exactly, EOFCASE; auto.
